@@ -22,6 +22,10 @@ type c07Case struct {
 	Mode  string `json:"mode"`  // update = one Update call per entry; batch = one UpdateBatch call
 	Batch string `json:"batch"` // per key: s = untouched, 1 = v1, 2 = v2, d = empty value
 	Order string `json:"order"`
+	// Hot: the modification is preceded by >100 net-zero Update calls (values toggled and restored), so that
+	// Trie.uncommitted/unhashed exceed their thresholds and the PARALLEL hasher and committer paths are taken
+	// (per-child node sets merged with MergeDisjoint) for the very same expected result.
+	Hot bool `json:"hot,omitempty"`
 }
 
 // c07Rule describes the enumeration shared by the two commit steps.
@@ -132,13 +136,27 @@ func c07Commits(r *mc.R, mode string) {
 					order = "desc"
 				}
 				finalRef := a.ref(final)
-				c := c07Case{a.Name, sh.base.String(), sh.mode, string(desc), order}
+				hot := bi%4 == 2
+				c := c07Case{a.Name, sh.base.String(), sh.mode, string(desc), order, hot}
 				var outcome string
 				r.Case(c, func() error {
 					pstore := c06NewMapStore(c06Path, baseRef)
 					tr, err := New(TrieID(baseRef.root), pstore)
 					if err != nil {
 						return fmt.Errorf("open base: %v", err)
+					}
+					if hot {
+						// churn: 102 writes that toggle every key between the two non-empty values, then restore the base
+						for j := 0; j < 102; j++ {
+							if err := tr.Update(a.Keys[j%c06NKeys], c06Vals[1+(j/c06NKeys)%2]); err != nil {
+								return fmt.Errorf("churn Update: %v", err)
+							}
+						}
+						for k := 0; k < c06NKeys; k++ {
+							if err := tr.Update(a.Keys[k], c06Vals[sh.base[k]]); err != nil {
+								return fmt.Errorf("churn restore: %v", err)
+							}
+						}
 					}
 					var keys, vals [][]byte
 					for i := 0; i < c06NKeys; i++ {
@@ -211,6 +229,9 @@ func c07Commits(r *mc.R, mode string) {
 				})
 				if outcome != "" {
 					outcomes[outcome]++
+					if hot {
+						outcomes["hot(parallel-commit-path):"+outcome]++
+					}
 				}
 				r.DistinctHash(mc.Hash64(a.Name + sh.mode + sh.base.String() + final.String()))
 				if bi == 1+si%4095 && si%97 == 0 {
